@@ -146,6 +146,7 @@ func genC07(c *Ctx) {
 	if b := repoFile("tlb/testdata/block-4/block.bin"); b != nil {
 		seeds = append(seeds, b)
 	}
+	c07Phase("seeds-built")
 	// 1. the valid seeds themselves
 	for _, s := range seeds {
 		in := sx.Bytes(s)
@@ -164,6 +165,7 @@ func genC07(c *Ctx) {
 		}
 	}
 	small := func(s []byte) bool { return len(s) <= 400 }
+	c07Phase("valid")
 	// 2. every truncation of the small seeds (sampled for larger ones)
 	for si, s := range seeds {
 		if !small(s) && !c.Thorough() {
@@ -181,8 +183,10 @@ func genC07(c *Ctx) {
 			c07Oracle(c, in, c.EmitGuarded("c07.parse", in, "truncation|"+classOfLen(k)))
 		}
 	}
+	c07Phase("truncation")
 	// 3. single-byte substitutions: header bytes exhaustively on interesting
 	//    values, body bytes sampled
+	bodyPos, substN := 0, 0
 	interesting := []byte{0x00, 0x01, 0x02, 0x04, 0x07, 0x08, 0x09, 0x10, 0x18, 0x1f, 0x20, 0x28, 0x3f, 0x40, 0x7f, 0x80, 0xe0, 0xfe, 0xff}
 	for si, s := range seeds {
 		if !small(s) {
@@ -191,13 +195,31 @@ func genC07(c *Ctx) {
 		if si%3 != 0 && !c.Thorough() {
 			continue
 		}
+		idxStart, hdrEnd := c07HeaderEnd(s)
 		for pos := 0; pos < len(s); pos++ {
 			vals := interesting
+			if pos <= 24 && (pos >= hdrEnd+2 || (pos >= idxStart && pos < hdrEnd)) && !c.Thorough() {
+				// quick tier: the short seeds' cell data starts before offset 24
+				// (hdrEnd; +2: the first cell's descriptors get every value) and
+				// the index (idxStart..hdrEnd) is not read by the parser.
+				// 19 values of such a byte give 19 near-identical BOCs that all
+				// parse: keep three, rotating with the position (no PRNG use,
+				// so the cases stay a subset of the former ones)
+				vals = []byte{interesting[pos%19], interesting[(pos+6)%19], interesting[(pos+12)%19]}
+			}
 			if pos > 24 && !c.Thorough() {
 				if !r.Chance(25) {
 					continue
 				}
 				vals = []byte{byte(r.U64()), interesting[r.Intn(len(interesting))]}
+				// quick tier: one sampled body position in three (a body
+				// substitution that still parses costs the extracted model a
+				// SHA-256 of every cell: ~30 ms); decided after the draws so
+				// that the cases stay a subset of the former ones
+				bodyPos++
+				if bodyPos%3 != 0 {
+					continue
+				}
 			}
 			for _, v := range vals {
 				if s[pos] == v {
@@ -212,10 +234,13 @@ func genC07(c *Ctx) {
 				} else if pos < 24 {
 					where = "header"
 				}
-				c07Oracle(c, in, c.EmitGuarded("c07.parse", in, "subst|"+where))
+				// quick tier: the allocation oracle on one substitution in four
+				substN++
+				c07OracleOpt(c, in, c.EmitGuarded("c07.parse", in, "subst|"+where), c.Thorough() || substN%4 == 0)
 			}
 		}
 	}
+	c07Phase("subst")
 	// 4. adversarial headers built directly
 	hdr := func(flags byte, off byte, fields ...[]byte) []byte {
 		b := []byte{0xb5, 0xee, 0x9c, 0x72, flags, off}
@@ -288,6 +313,7 @@ func genC07(c *Ctx) {
 			}
 		}
 	}
+	c07Phase("adversarial+grid")
 	// 5. random multi-byte mutations and random bytes
 	nMut := c.Scale(1500, 60000)
 	for i := 0; i < nMut; i++ {
@@ -327,17 +353,57 @@ func genC07(c *Ctx) {
 		in := sx.Bytes(b)
 		c07Oracle(c, in, c.EmitGuarded("c07.parse", in, "random"))
 	}
+	c07Phase("mutation+random")
 	// 6. huge, mutually consistent header counters in front of a tiny body
 	c07ConsistentHuge(c, r.Fork(0xc07a))
+	c07Phase("consistent-huge")
 	// 7. valid BOCs with heavy sub-cell sharing: printing / hashing /
 	//    re-serialising the parsed cells terminate within the budget
 	c07Sharing(c, r.Fork(0xc07b))
+	c07Phase("sharing")
 	// 8. the same shapes with exotic-typed cells (pruned branch / library /
 	//    Merkle proof / Merkle update / unknown types, level masks 1..7, valid
 	//    and invalid payload lengths): hashing stays linear in the cells
 	c07ExoticSharing(c, r.Fork(0xc07c))
+	c07Phase("sharing-exotic")
 	// 9. trees around and beyond the hasher's depth limit, chains and deep
 	//    branches under a shallow root (a reused Hasher must survive the error)
 	c07Deep(c, r.Fork(0xc07d))
+	c07Phase("deep")
 	c07DumpStats()
+}
+
+// c07HeaderEnd returns the offsets at which the index and the cell data of a
+// BOC produced by one of the seed serialisers start (magic, flags/size,
+// off_bytes, counters, tot_cells_size, root list | index | cells), or len(s)
+// twice when s is too short.
+func c07HeaderEnd(s []byte) (idxStart, end int) {
+	if len(s) < 6 {
+		return len(s), len(s)
+	}
+	size, idx := int(s[4]&7), s[4]&128 != 0
+	if s[0] != 0xb5 {
+		size, idx = int(s[4]), true
+	}
+	off := int(s[5])
+	if size < 1 || size > 8 || off < 1 || off > 8 || len(s) < 6+3*size+off {
+		return len(s), len(s)
+	}
+	be := func(b []byte) int {
+		v := 0
+		for _, x := range b {
+			v = v<<8 | int(x)
+		}
+		return v
+	}
+	cells, roots := be(s[6:6+size]), be(s[6+size:6+2*size])
+	idxStart = 6 + 3*size + off + roots*size
+	end = idxStart
+	if idx {
+		end += cells * off
+	}
+	if idxStart < 0 || end > len(s) || end < idxStart {
+		return len(s), len(s)
+	}
+	return idxStart, end
 }
